@@ -96,6 +96,47 @@ namespace CDNS {
         explicit BlockTable() {}
 
         /**
+         * @brief Copy constructor. The copy indexes its own items (the index holds references
+         * to stored items, so it can't be copied along with them).
+         */
+        BlockTable(const BlockTable& copy) : items_(copy.items_) { reindex(); }
+
+        /**
+         * @brief Move constructor. The moved-from table is left empty.
+         */
+        BlockTable(BlockTable&& copy) : items_(std::move(copy.items_)) {
+            copy.indexes_.clear();
+            copy.items_.clear();
+            reindex();
+        }
+
+        /**
+         * @brief Assignment operator. The assigned table indexes its own items.
+         */
+        BlockTable& operator=(const BlockTable& rhs) {
+            if (this != &rhs) {
+                indexes_.clear();
+                items_ = rhs.items_;
+                reindex();
+            }
+            return *this;
+        }
+
+        /**
+         * @brief Move assignment operator. The moved-from table is left empty.
+         */
+        BlockTable& operator=(BlockTable&& rhs) {
+            if (this != &rhs) {
+                indexes_.clear();
+                items_ = std::move(rhs.items_);
+                rhs.indexes_.clear();
+                rhs.items_.clear();
+                reindex();
+            }
+            return *this;
+        }
+
+        /**
          * @brief Find if a key value is in the list
          * 
          * @param key the key value to search for.
@@ -230,6 +271,17 @@ namespace CDNS {
             res -= 1;
             indexes_[KeyRef<K>(items_.back().key())] = res;
             return res;
+        }
+
+        /**
+         * @brief Rebuild the index so that its keys reference the items stored in this table.
+         */
+        void reindex()
+        {
+            indexes_.clear();
+            CDNS::index_t pos = 0;
+            for (const T& item : items_)
+                indexes_[KeyRef<K>(item.key())] = pos++;
         }
 
         std::deque<T> items_;
